@@ -958,8 +958,34 @@ def group_reference_whole(ctx: Ctx, rep: Report, rid: str = "R01.17") -> None:
                     rep.ok(f"{f.qualname}: {kw} {nm}", "name read whole", nontrivial=False, where=where(f))
                 else:
                     rep.violation(f.qualname, f"{pat!r} on '{kw} {nm}' -> {got!r}", "the referenced group name is not read whole: two groups whose names differ after the cut are the same group for the library (shadow removal works by rendered line and deletes the wrong entry)", where(f), inp=f"permit ip {kw} {nm} any")
-    if n == 0:
-        rep.note(f"{rid} the pattern of _line_addrgroup could not be folded (not judged)")
+    # ... and however the name is cut out (pattern, slice, prefix removal): the body evaluated on `<keyword> <name>` stores
+    # that very name - for names that begin with letters of the keywords too (`str.lstrip("addrgroup ")` strips a SET of
+    # characters: `dmz-hosts` becomes `mz-hosts`, and only when the line is re-read on the other platform)
+    from ..fold import RaisesValue as _RV
+
+    m = 0
+    for f in [g for g in ctx.prog.funcs if g.name == "_line_addrgroup" and g.cls is not None and len(g.params) > 1]:
+        for kw in ("object-group", "addrgroup"):
+            for nm in ("NAME", "dmz-hosts", "admins", "branch-lan", "group-1", "object", "p", "NET-10.0.0.16"):
+                st = ctx.folder.eval_state(f, {f.params[1]: f"{kw} {nm}", "self._cmd_addrgroup()": kw})
+                if isinstance(st, _RV):
+                    m += 1
+                    rep.instance()
+                    rep.violation(f.qualname, f"'{kw} {nm}' -> raises {st.exc_name}", "a reference to an address group with this name is refused", where(f), inp=f"permit ip {kw} {nm} any")
+                    continue
+                if not isinstance(st, dict):
+                    continue  # does not fold: not judged
+                stored = [v for k, v in st.items() if k.startswith("self._") and k != "self._cmd_addrgroup()" and isinstance(v, str) and v not in ("addrgroup",)]
+                if not stored:
+                    continue
+                m += 1
+                rep.instance()
+                if nm in stored:
+                    rep.ok(f"{f.qualname}: {kw} {nm}", "the body stores the name whole", nontrivial=False, where=where(f))
+                else:
+                    rep.violation(f.qualname, f"'{kw} {nm}' -> {stored}", "the name stored for the referenced group is not the name that stands after the keyword: the entry refers to another group (and to a different one after the line is re-read on the other platform, whose keyword has other letters)", where(f), inp=f"Ace('permit ip {kw} {nm} any').platform = <the other platform>")
+    if n == 0 and m == 0:
+        rep.note(f"{rid} neither the pattern nor the body of _line_addrgroup could be evaluated (not judged)")
 
 
 def log_keywords_pass(ctx: Ctx, rep: Report, rid: str = "R01.18") -> None:
